@@ -306,8 +306,8 @@ func copyTree(src, dst string) error {
 func init() {
 	register(family{Name: "measure", Setup: measureSetup, Scenarios: []scenario{
 		{Name: "A", Roles: []string{"query", "introducer", "query"}},
-		{Name: "B", Roles: []string{"longquery", "introducer", "query"}},
+		{Name: "B", Roles: []string{"longquery", "introducer", "query"}, ThoroughOnly: true},
 		{Name: "C", Roles: []string{"query", "longquery", "close"}},
-		{Name: "D", Roles: []string{"introducer", "query", "query"}},
+		{Name: "D", Roles: []string{"introducer", "query", "query"}, ThoroughOnly: true},
 	}})
 }
